@@ -83,15 +83,23 @@ def run(ctx):
             recv = [p_[1][0] for p_ in k2.expr_paths(fn_expr_operand(h, t["args"][0])) if p_[0] == 1 and p_[1]]
             arg = [p_[1][0] for p_ in k2.expr_paths(fn_expr_operand(h, t["args"][1])) if p_[0] == 2 and p_[1]]
             if recv and arg:
-                hp.setdefault(arg[0], []).append((recv[0], c.get("name"), callee_path(c), t["sp"]))
+                hp.setdefault(arg[0], []).append((recv[0], c.get("name"), callee_path(c), t["sp"], bb))
                 work.append(callee_path(c))
         for fl in hadt["variants"][0]["fields"]:
             key = "K3|merge-field|%s.%s" % (sp_, fl["n"])
             uses = hp.get(fl["n"], [])
             ok = len(uses) == 1 and uses[0][0] == fl["n"] and uses[0][1] in MERGING
-            res.site(key, True, {"helper": h.path, "field": fl["n"], "merged_into": [(u[0], u[2]) for u in uses], "verdict": "ok" if ok else "VIOLATION"})
+            # and the merge happens on every path: not under a condition (a "nothing to do" fast path decided from part of
+            # the other side drops the rest)
+            conds = []
+            if ok:
+                for sb, tgt in h.control_deps(uses[0][4], transitive=False):
+                    tt = h.blocks[sb]["t"]
+                    conds.append(str(fn_expr_operand(h, tt["d"])[:2])[:70] if tt["k"] == "switch" else tt["k"])
+                ok = not conds
+            res.site(key, True, {"helper": h.path, "field": fl["n"], "merged_into": [(u[0], u[2]) for u in uses], "conditions": conds, "verdict": "ok" if ok else "VIOLATION"})
             if not ok:
-                res.find(key, h.loc(), "%s does not merge `other.%s` into `self.%s` with a merging call (found %s)" % (h.path, fl["n"], fl["n"], [(u[0], u[2]) for u in uses]), "A += B where only B holds an item in %s.%s" % (sp_.rsplit("::", 1)[-1], fl["n"]))
+                res.find(key, h.loc(), "%s does not merge `other.%s` into `self.%s` with a merging call on every path (found %s%s)" % (h.path, fl["n"], fl["n"], [(u[0], u[2]) for u in uses], (", only under " + str(conds)) if conds else ""), "A += B where only B holds an item in %s.%s" % (sp_.rsplit("::", 1)[-1], fl["n"]))
     res.count("nested_merge_helpers", nnested, floor=2)
     # no field of self is used as the argument (direction) and nothing else is written
     for a, uses in pairs.items():
